@@ -11,3 +11,15 @@ package api
 //@   ensures ret != nil && ret.PageSize == cursor.PageSize && ret.HasMore == cursor.HasMore
 //@   ensures ret.Previous == cursor.Previous && ret.Next == cursor.Next && len(ret.Data) == len(cursor.Data)
 //@   property C17
+
+// C06: the three success answers of the write handlers (201 / 200 / 204): a request whose engine command answered with an
+// error is never acknowledged as a success (the handlers named in the scope are the v1 and v2 write handlers)
+//@ func api.NoContent
+//@   requires in postTransaction, revertTransaction, deleteTransactionMetadata, postAccountMetadata, deleteAccountMetadata: !writeRefused // C06
+//@   inline
+//@ func api.Created
+//@   requires in postTransaction, revertTransaction, deleteTransactionMetadata, postAccountMetadata, deleteAccountMetadata: !writeRefused // C06
+//@   inline
+//@ func api.Ok
+//@   requires in postTransaction, revertTransaction, deleteTransactionMetadata, postAccountMetadata, deleteAccountMetadata: !writeRefused // C06
+//@   inline
